@@ -158,7 +158,7 @@ def trace_lit(row, ops, trace):
 
 
 # ---- generation ------------------------------------------------------------------------------------
-LABELS = ["", "a", " a ", "1", "12", "1a", "a1", "x y", "\tq\n", "é", "a{b", "A:B", "  ", "0x", "−1", "R_1"]
+LABELS = ["", "a", " a ", "1", "12", "1a", "a1", "x y", "\tq\n", "é", "a{b", "A:B", "  ", "0x", "−1", "R_1", " 1", "2 ", "\t12\n", " 0 "]
 
 
 def lattice(row, k, rng, nan_ok=False):
